@@ -70,7 +70,9 @@ C01Part(d) ==
            dd == IF sc = 0 THEN data ELSE data @@ [scale |-> [p |-> sc]]
        IN \A ty \in {"f64", "f32"} : \A li \in Levs : \A ki \in 1..3 : EmitStyles("arith", ty, ki, li, dd)
   /\ \A s \in DOMAIN Shapes : \A ty \in {"f64", "f32"} : \A li \in Levs : \A ki \in 1..3 :
-       EmitStyles("arith", ty, ki, li, Shapes[s])
+       /\ EmitStyles("arith", ty, ki, li, Shapes[s])
+       \* ... and through the StatisticsOps trait only (what generic code reaches)
+       /\ \A st \in {"ops", "ops_mean", "ops_append"} : Emit(MeanCase("arith", ty, st, ki, li, Shapes[s], FALSE, "style"))
   \* irregular samples: every value distinct, no symmetry, supplied in no particular order
   /\ \A i \in 1..((ND + 1) \div 2) : \A ty \in {"f64", "f32"} : \A li \in Levs : \A ki \in 1..3 :
        LET n == Pick(700 + i, 11, 5, 60)
@@ -231,6 +233,8 @@ C05Part(d) ==
        IN \A li \in Levs : \A ki \in 1..3 :
             /\ Emit(MeanCase(fl, ty, "ci", ki, li, data, TRUE, "base") @@ [aux |-> TRUE])
             /\ Emit(MeanCase(fl, ty, "extend", ki, li, data, FALSE, "style") @@ [aux |-> FALSE])
+            \* ... and through the StatisticsOps trait only (one-shot, fed in bulk, fed one by one)
+            /\ Emit(MeanCase(fl, ty, <<"ops", "ops_mean", "ops_append">>[(i % 3) + 1], ki, li, data, FALSE, "style") @@ [aux |-> FALSE])
   \* the same kind of samples at very large / very small magnitudes (reciprocal-space quantities near the
   \* machine epsilon are still ordinary numbers)
   /\ \A i \in 1..((ND + 3) \div 4) : \A ty \in {"f64", "f32"} : \A sc \in {-1, 1} :
